@@ -317,13 +317,17 @@ func render(d *Doc, st *Style) *TV {
 		} else {
 			kvs := [][2]any{}
 			for i, k := range d.Keys {
+				if st.Obj == "inmap" && k != "" { // map[any]any whose keys are of a named string type
+					kvs = append(kvs, [2]any{"~ns:" + hx(k), render(d.Vals[i], st)})
+					continue
+				}
 				kvs = append(kvs, [2]any{hx(k), render(d.Vals[i], st)})
 			}
 			kk := "str"
 			switch st.Obj {
 			case "nmap":
 				kk = "named"
-			case "imap":
+			case "imap", "inmap":
 				kk = "iface"
 			}
 			out = tvMap(kk, kvs)
